@@ -358,4 +358,4 @@ MANIFEST = {
     'design_ref': 'DESIGN.md 3/C09',
 }
 MANIFEST['note'] += (' Also decided here (necessary conditions shared between properties or added after the independent '
-                     'change rounds, DESIGN.md 8.7): hand-over at commit (from C10), lookup by SPI returns table entries (from C16), kernel teardown cannot fail or be cut short (from C10/C14), from_exception cannot raise.')
+                     'change rounds, DESIGN.md 8.7): hand-over at commit (from C10), lookup by SPI returns table entries (from C16), kernel teardown cannot fail or be cut short (from C10/C14), from_exception cannot raise. Rounds 7-8: request window incl. request 0 (from C08); a fresh retry budget per request; follow-up deletes by value terms.')
